@@ -230,6 +230,19 @@ def demo_F19_pda_push_pop_dummy_collision():
     return (pda_is_push_pop(Q) and pda_words_up_to_n(Q, 2) == {'a'}, 'ok')
 
 
+def demo_F20_pda_normal_forms_plain_dict():
+    from gambatools.pda import PDA
+    from gambatools.pda_algorithms import pda_to_accept_on_empty_stack, pda_to_cfg, pda_words_up_to_n
+    import copy
+    from gambatools.pda_algorithms import pda_to_one_accepting_state_in_place
+    P = PDA({'p', 'q'}, {'a'}, {'x'}, {('p', 'a', ''): {('q', 'x')}}, 'p', {'p', 'q'}, '')
+    try:
+        E = pda_to_accept_on_empty_stack(P); Q = copy.deepcopy(P); pda_to_one_accepting_state_in_place(Q); G = pda_to_cfg(P)
+    except KeyError as e:
+        return (False, 'KeyError %s' % e)
+    return (pda_words_up_to_n(E, 2) == {'', 'a'} and pda_words_up_to_n(Q, 2) == {'', 'a'}, 'ok')
+
+
 def demo_F17_state_named_like_keyword():
     from gambatools.dfa import DFA
     from gambatools.dfa_algorithms import print_dfa, parse_dfa
